@@ -161,7 +161,7 @@ func (e *errCollector) Handle(err error) { e.errs = append(e.errs, err) }
 
 func main() {
 	vf.Main("C19", "exploration", func(c *vf.Ctx) {
-		c.Rule = "seeded pairs/triples of resources (0-15 attributes over a small key alphabet incl. invalid keys/values, schema URLs from {\"\",u1,u2}, nil and Empty), environment strings with randomly percent-encoded bytes/spaces/empty items/missing '=', scripted detector lists (ok, partial, hard error, nil, nil resource) in random orders, whole or split over two sub-slice options with an attribute option in between; identity of merge operands incl. nil vs Empty(). distinct = distinct (family, schema case, nil/empty shape, overlap class, error class) signatures"
+		c.Rule = "seeded pairs/triples of resources (0-15 attributes over a small key alphabet incl. invalid keys/values, schema URLs from {\"\",u1,u2}, nil and Empty), environment strings with randomly percent-encoded bytes/spaces/empty items/missing '=', attribute lists used for construction repeatedly, scripted detector lists (ok, partial, hard error, nil, nil resource) in random orders, whole or split over two sub-slice options with an attribute option in between; identity of merge operands incl. nil vs Empty(). distinct = distinct (family, schema case, nil/empty shape, overlap class, error class) signatures"
 		ctx := context.Background()
 
 		c.Cases("merge", c.N(100_000, 1_500_000), 0, func(k *vf.Case) {
